@@ -55,7 +55,7 @@ FAMILIES = {      # heavy families first (load balance); inside a family the enu
     "Guderley": (1, 2, True), "GenEOS": (1, 2, True), "GenEOS_table": (2, 2, True), "Sedov": (1, 2, True), "RMTV": (1, 2, False),
     "BBNoh": (4, 4, False), "IGEOS": (1, 2, False), "IGEOS_table": (2, 2, False), "IGEOS_bnd": (2, 2, False),
     "Noh": (1, 2, False), "Cog19": (1, 2, False), "Cog20": (1, 2, False), "Cog21": (1, 2, False),
-    "EPpiston": (1, 2, False), "EHEP": (1, 2, False), "SDRZ": (1, 2, False), "Mader": (1, 2, False),
+    "EPpiston": (1, 2, False), "EHEP": (1, 2, False), "SDRZ": (1, 2, False), "Mader": (2, 2, False),
 }
 
 # Tolerances: >= 10 x the worst residual of the unchanged code over the *thorough* lattice (measured value in the comment;
